@@ -161,6 +161,9 @@ def run(c, facts, tier):
                         "binding `%s`: stored in the destination cache on this path: %s; the path condition says the cache was empty: %s — otherwise two printers on one port get two mutexes" % (t[:60], bool(cached), absent),
                         witness="-print -print -print with 2 threads" if not (cached and absent) else None,
                     )
+    from .. import report as _rep
+
+    _rep.require(c, facts, "c10", "C16.delegation", "mode choice", "plain mode is used only when every record is a newline-terminated line", lambda o: o["rule"] in ("C10.predicate", "C10.choice"), "in plain mode records of different printers share stdout as lines; that every stdout record then ends in a newline is the mode rule decided by C10.predicate/C10.choice")
     # C16.no-bypass: shared with C10.all-framed
     arows = codegen.expand(codegen.table(facts, "<Action as TargetScheme>::compile"))
     for key, row in sorted(arows.items()):
